@@ -141,6 +141,7 @@ def py_src(P):
             'const': 'lambda v_: (%s)' % c,
             'pair': 'lambda v_: [(%s), v_]' % c,
             'wrap': 'lambda v_: [v_]',
+            'same': 'lambda v_: _vgate(v_)',
             'boomeq': 'lambda v_: _vboom(v_, %s)' % c,
         }[P[1]]
     if k == 'eq':
